@@ -187,6 +187,10 @@ class Inliner:
             shim_mode = self.shim_mode
             if cd is None:
                 continue
+            if shim_mode is None and ci is not None and (t.get("res") != cd):
+                # a call the generic body could not name (through a type parameter): record what it is for this instantiation
+                nb0 = self.blocks[bb0 + i]
+                nb0["term"] = dict(nb0["term"], res=cd, res_name=ci.get("name"))
             why = self.may_inline(cd, depth + 1, stack + [d])
             if why:
                 if why != "no MIR":
@@ -260,9 +264,10 @@ class Inliner:
 def inlined(facts, root, inst="auto", stop=None, max_depth=8, extern_ok=None, closures=True):
     """Fn for `root` (def path) with callees spliced in.  inst: "auto" = the unique monomorphic instance if there is exactly
     one, else the generic root instance; or an instance record; or None (syntactic resolution only)."""
-    key = ("inl", root, inst["id"] if isinstance(inst, dict) else inst, id(stop), max_depth, id(extern_ok), closures)
+    # only predicate-free requests are memoised (a predicate's identity is not a stable key)
+    key = ("inl", root, inst["id"] if isinstance(inst, dict) else inst, max_depth, closures) if stop is None and extern_ok is None else None
     cache = facts.__dict__.setdefault("_inl_cache", {})
-    if key in cache:
+    if key is not None and key in cache:
         return cache[key]
     g = facts.fn(root)
     if inst == "auto":
@@ -281,5 +286,6 @@ def inlined(facts, root, inst="auto", stop=None, max_depth=8, extern_ok=None, cl
     f.skipped = il.skipped
     f.root_inst = inst
     f.is_inlined = True
-    cache[key] = f
+    if key is not None:
+        cache[key] = f
     return f
